@@ -313,11 +313,17 @@ def selfcheck(ctx):
   v = rng.randn(32).astype(np.float32)
   for levels in (2, 4, 16):
     g = Grid(v, levels)
-    lo = np.floor((g.x - g.vmin) / g.step)
+    # (the maximum's position (x - vmin) / step may round to L-1 + 2e-15: the reference quantizer takes its lower neighbour from
+    #  0..L-2 and treats positions within 1e-9 of a level as on that level, or its biased variant would leave the range there)
+    u_ = (g.x - g.vmin) / g.step
+    lo = np.clip(np.floor(u_), 0, levels - 2)
+    fr = np.clip(u_ - lo, 0.0, 1.0)
+    inner = (fr > 1e-9) & (fr < 1 - 1e-9)
+    fr = np.where(inner, fr, np.round(fr))
     for bias, want_bad in ((0.0, False), (0.12, True)):
       j = GridJudge(g, False, False)
       r = rng.rand(4096, 32)
-      out = g.vmin + (lo + (r < np.clip(g.frac + bias * (g.frac > 0) * (g.frac < 1), 0, 1))) * g.step
+      out = g.vmin + (lo + (r < np.clip(fr + bias * inner, 0, 1))) * g.step
       j.add(out.astype(np.float32))
       bad, _, _ = j.unbiased_bad()
       if j.bad or bool(len(bad)) != want_bad:
